@@ -249,6 +249,22 @@ def hypergraph_exotic():
     A("H.add_edge([FC], idx=3)")
     A("H.add_edge([TA, SB], idx=EF)")
     A("H.add_edge([SB], idx=EB)")
+    # falsy labels and IDs: node 0 and '', edge IDs '' and () (anything testing truth instead of presence goes wrong)
+    A("H.add_node(0)")
+    A("H.add_node('')")
+    A("H.add_edge([0, SB])")
+    A("H.add_edge([0, ''], idx='')")
+    A("H.add_edge([TA], idx=())")
+    A("H.add_edges_from({'': [0], (): [SB, 0]})")
+    A("H.add_node_to_edge('', 0)")
+    A("H.add_node_to_edge((), '')")
+    A("H.remove_node(0)")
+    A("H.remove_node('')")
+    A("H.remove_edge('')")
+    A("H.remove_edge(())")
+    A("H.remove_node_from_edge('', 0)")
+    A("H.set_edge_attributes({'': {'w': 0}, (): {'w': 0.0}})")
+    A("H.set_node_attributes({0: {'c': 0}, '': {'c': None}})")
     A("H.add_edges_from({EF: [TA], EB: [SB, FC]})")
     A("H.add_edges_from([({TA, SB}, EF), ({FC}, EB)])")
     A("H.add_node_to_edge(EF, FC)")
@@ -300,6 +316,19 @@ def dihypergraph_exotic():
     A("H.add_edge(([FC], [TA]), idx=NP3)")
     A("H.add_edge(([FC], [SB]), idx=3)")
     A("H.add_edge(([TA], [SB]), idx=EF)")
+    A("H.add_node(0)")
+    A("H.add_node('')")
+    A("H.add_edge(([0], [SB, '']))")
+    A("H.add_edge(([0], ['']), idx='')")
+    A("H.add_edge(([TA], [0]), idx=())")
+    A("H.add_edges_from({'': ([0], []), (): ([SB], [0])})")
+    A("H.add_node_to_edge('', 0, 'out')")
+    A("H.add_node_to_edge((), '', 'in')")
+    A("H.remove_node(0)")
+    A("H.remove_node('')")
+    A("H.remove_edge('')")
+    A("H.remove_edge(())")
+    A("H.remove_node_from_edge('', 0, 'in')")
     A("H.add_edges_from({EF: ([TA], [FC]), EB: ([SB], [])})")
     A("H.add_edges_from([(([TA], [SB]), ES), (([SB], [TA]), EB)])")
     A("H.add_node_to_edge(EF, FC, 'in')")
@@ -337,6 +366,16 @@ def simplicial_exotic():
     A("H.add_simplex([TA, FC], idx=NP3)")
     A("H.add_simplex([FC, SB], idx=3)")
     A("H.add_simplex([TA, SB], idx=EF)")
+    A("H.add_node(0)")
+    A("H.add_node('')")
+    A("H.add_simplex([0, SB])")
+    A("H.add_simplex([0, '', SB], idx='')")
+    A("H.add_simplex([TA, 0], idx=())")
+    A("H.add_simplices_from({'': [0, SB], (): [SB, 0, '']})")
+    A("H.remove_node(0)")
+    A("H.remove_node('')")
+    A("H.remove_simplex_id('')")
+    A("H.remove_simplex_id(())")
     A("H.add_simplices_from({EF: [TA, FC], EB: [SB, FC, TA]})")
     A("H.add_simplices_from([({TA, SB}, EB)])")
     A("H.remove_simplex_id(EF)")
@@ -376,6 +415,11 @@ def hypergraph_deviant():
         "H.add_edges_from([([3, None], 7)])",
         "H.add_edges_from([([1, 3], {'w': 1}), ([3, None], {'w': 2})])",
         "H.add_edges_from([([2, None], 7, {'w': 1})])",
+        # an attribute entry that is not a mapping (the call may fail, the tables must stay paired)
+        "H.add_edges_from([([1, 2], 7, None)])",
+        "H.add_edges_from([([1, 3], 7, 5), ([2, 3], 8, {})])",
+        "H.add_edges_from([([1, 2], 7, {'w': 1}), ([2, 3], 8, 'ab')])",
+        "H.add_edges_from([([1, 2], 7, [1])])",
         "H.add_edges_from(['ab'])",
         "H.add_edges_from([[1, [2]]])",
         "H.add_edges_from([[]])",
@@ -559,6 +603,11 @@ def dihypergraph_deviant():
         "H.add_edges_from([(([1], [None]), 7)])",
         "H.add_edges_from([(([1], [2]), {'w': 1}), (([None], [2]), {'w': 2})])",
         "H.add_edges_from([(([2], [None]), 7, {'w': 1})])",
+        # an attribute entry that is not a mapping (the call may fail, the tables must stay paired)
+        "H.add_edges_from([(([1], [2]), 7, None)])",
+        "H.add_edges_from([(([1], [3]), 7, 5), (([2], [3]), 8, {})])",
+        "H.add_edges_from([(([1], [2]), 7, {'w': 1}), (([2], [3]), 8, 'ab')])",
+        "H.add_edges_from([(([1], [2]), 7, [1])])",
         "H.add_edge((iter([1]), iter([2, 3])))",
         "H.add_edges_from([(iter([1]), iter([2, 3]))])",
         "H.add_edges_from({5: (iter([1]), iter([2]))})",
@@ -686,6 +735,11 @@ def simplicial_deviant():
         "H.add_simplex([])",
         "H.add_simplex([3, None])",
         "H.add_simplex([1, [2]])",
+        # an attribute entry that is not a mapping (the call may fail, the tables must stay paired)
+        "H.add_simplices_from([([1, 2, 3], 7, None)])",
+        "H.add_simplices_from([([1, 3], 7, 5), ([2, 3], 8, {})])",
+        "H.add_simplices_from([([1, 2], 7, {'w': 1}), ([2, 3, 4], 8, 'ab')])",
+        "H.add_simplices_from([([1, 2], 7, [1])])",
         "H.add_simplex(5)",
         "H.add_simplices_from([[]])",
         "H.add_simplices_from([[1, 2], []])",
